@@ -57,6 +57,21 @@ def main(tier):
                     if (ti, victim) in ref:
                         plan.append((ti, sub, victim, 'write', 1, True))
                         plan.append((ti, sub, victim, 'close', 1, False))
+    # split C output (-Csmax): a header and numbered parts; every produced file is a victim in turn
+    for ti, text in enumerate(texts):
+        d = mkdir('%s/ref-%d-split' % (ck.work, ti))
+        write(d + '/u.as', text)
+        r = run(base + ['-Fc', '-Csmax=5', 'u.as'], cwd=d, timeout=120, merge=True)
+        parts = sorted(f for f in os.listdir(d) if f.endswith(('.c', '.h')))
+        if r.rc != 0 or len(parts) < 3:
+            ck.report('reference-run-failed=split', r.text()[-400:])
+            continue
+        for f in parts:
+            KINDS['split:' + f] = f
+            ref[(ti, 'split:' + f)] = (open(d + '/' + f, 'rb').read(), 1)
+            plan.append((ti, ('split:' + f,), 'split:' + f, 'write', 1, True))
+            plan.append((ti, ('split:' + f,), 'split:' + f, 'write', 1, False))
+            plan.append((ti, ('split:' + f,), 'split:' + f, 'close', 1, False))
     if ck.violations:
         ck.finish()
 
@@ -69,6 +84,9 @@ def main(tier):
         vpath = d + '/' + KINDS[victim]
         opts = []
         for k in kinds:
+            if k.startswith('split:'):
+                opts += ['-Fc', '-Csmax=5']
+                continue
             opts.append('-F' + k)
             if k == 'main':
                 opts.append('-Fc')
@@ -118,9 +136,9 @@ def main(tier):
             else:
                 ck.nontrivial((kinds, victim, fault, n, persist, 'reported'))
         if problem:
-            ck.report('output=%s,fault=%s' % (victim, fault), '%s: %s\n%s' % (label, problem, r.text()[-400:]),
+            ck.report('output=%s,fault=%s' % ('split-part' if victim.startswith('split:u0') else victim, fault), '%s: %s\n%s' % (label, problem, r.text()[-400:]),
                       files={'u.as': texts[ti], 'case.txt': label + '\n'},
-                      cmds=['# ' + label, ' '.join(base + ['-F' + k for k in kinds] + ['u.as'])])
+                      cmds=['# ' + label, ' '.join(base + (['-Fc', '-Csmax=5'] if victim.startswith('split:') else ['-F' + k for k in kinds]) + ['u.as'])])
     ck.cov.update({
         'rule': 'output kinds %s and all subsets of {ao,fm,c} x faults on the output path: n-th write fails with ENOSPC for every n (once / persistently), close fails (EIO), '
                 'open fails (EACCES), target is a directory, target directory cannot be created; non-trivial = fault cases that were reported (or proved harmless) correctly' % sorted(KINDS),
